@@ -1634,7 +1634,7 @@ def _ordered_merge(left: DataFrame,
 
     for k in left_fields_to_map:
         dest_k = k
-        if k in dest:
+        if k in right_fields_to_map:
             dest_k += left_suffix
         dest_f = left[k].create_like(dest, dest_k)
         if left_map is None:
@@ -1646,7 +1646,7 @@ def _ordered_merge(left: DataFrame,
 
     for k in right_fields_to_map:
         dest_k = k
-        if k in dest:
+        if k in left_fields_to_map:
             dest_k += right_suffix
         dest_f = right[k].create_like(dest, dest_k)
         if right_map is None:
